@@ -208,6 +208,9 @@ func propC10(c feCase) hh.Verdict {
 	if len(spec.Issues) >= 2 {
 		v.Classes = append(v.Classes, "issues>=2")
 	}
+	if spec.PostFailed {
+		v.Classes = append(v.Classes, "issue-from-posttransform-error")
+	}
 	if renamed {
 		v.Classes = append(v.Classes, "tagged")
 	}
@@ -259,7 +262,7 @@ func genFE(rt *rapid.T, h *hh.H, mode string, fes []string, cfg model.GenCfg) fe
 
 func TestC10(t *testing.T) {
 	h := hh.Start(t, "C10",
-		"cases = nested struct/slice/pointer schemas with random struct-tag sets (distinct names per tag kind), several simultaneously failing nodes, IssuePath overrides, root-level failures, through every front end (map, zjson, zhttp JSON/form/query, zenv) and in Validate; non-trivial = >=2 issues and (>=2 of them below the root, or a tag-renamed key, or an IssuePath); distinct = FNV-1a of the case JSON",
+		"cases = nested struct/slice/pointer schemas with random struct-tag sets (distinct names per tag kind), several simultaneously failing nodes, IssuePath overrides, root-level failures, PostTransforms that return errors or issues, through every front end (map, zjson, zhttp JSON/form/query, zenv) and in Validate; non-trivial = >=2 issues and (>=2 of them below the root, or a tag-renamed key, or an IssuePath); distinct = FNV-1a of the case JSON",
 		"invariants on every returned map: each issue exactly once under the key equal to its Path ($root for the empty path), $first a singleton that is one of the issues and (when no test sets its own message) pointer-identical to the first issue recorded, no empty lists, nil iff no issue; paths equal the documented key chain (source tag, zog tag, schema key; [i]; IssuePath wins) computed by the specification; SanitizeMap/SanitizeList keep keys and order",
 		"tag values contain no commas, dots or brackets and are never empty (misconfiguration)")
 	defer h.Finish()
@@ -276,6 +279,34 @@ func TestC10(t *testing.T) {
 		return ""
 	})
 	hh.Sub(h, "validate", h.N(10000, 60000), func(rt *rapid.T) feCase { return genFE(rt, h, "validate", nil, base) }, propC10)
+	// issues that come from a PostTransform's returned error are keyed by their own node's path too, whatever options
+	// (IssuePath ...) the tests of other nodes carry: mostly valid records, so that the failing transform is reached
+	pe := base
+	pe.PPost, pe.PostBehaviours = 0.2, []string{"mutate", "error", "wrapped", "issue", "error"}
+	pe.PTestSat, pe.PAbsent, pe.PJunk, pe.PVary, pe.POpts, pe.PCatch = 0.97, 0.05, 0, 0.15, 0.5, 0.05
+	for _, mode := range []string{"parse", "validate"} {
+		mode := mode
+		hh.SubEx(h, "post-errors-"+mode, h.N(8000, 40000), func(rt *rapid.T) feCase {
+			return genFE(rt, h, mode, []string{model.FEMap, model.FEMap, model.FEJSON, model.FEForm}, pe)
+		}, func(c feCase) hh.Verdict {
+			v := propC10(c)
+			if v.Skip == "" && v.Err == "" {
+				failing := false
+				c.Root.Walk(func(n *model.Node) {
+					for _, p := range n.Posts {
+						failing = failing || p.Behaviour != "mutate"
+					}
+				})
+				v.Nontrivial = failing && contains(v.Classes, "issue-from-posttransform-error")
+			}
+			return v
+		}, func(c feCase) string {
+			if h.Open("source-tag-on-empty-object") && emptyObjectWithSourceTags(c) {
+				return "source-tag-on-empty-object"
+			}
+			return ""
+		})
+	}
 }
 
 // emptyObjectWithSourceTags: a JSON front end whose top-level object is empty while some field carries a json tag.
